@@ -126,6 +126,7 @@ type Machine struct {
 	conc *concreteRun
 	// happens-before race detection (Params["race"] = 1)
 	race *raceState
+	stepLimit  int  // vrtStepLimit: executing more interpreter steps than this is a violation ("work in proportion to the input")
 	racePaused bool // vrtRaceOff: the harness's own end-of-run oracle reads shared state at quiescence
 	raceForkExtra vclock // joined into the next spawned goroutine's clock (timer callbacks)
 
